@@ -263,3 +263,44 @@ Proof.
   - rewrite <- E. clear -G. induction (e_pending (ep_of st s)) as [|[k2 c2] r IHr]; cbn in G; [discriminate|].
     destruct (Z.eqb k2 q); [inversion G; subst; left; reflexivity | right; apply IHr; exact G].
 Qed.
+
+(* ---- no step of the system ever sets the sequence counter back (a redial keeps it) ---- *)
+Lemma dispatch_count cfg s e m ids : e_count (dispatch cfg s e m ids) = e_count e.
+Proof.
+  unfold dispatch. destruct (beqb (m_mtype m) x01); [reflexivity|].
+  destruct (beqb (m_mtype m) x02); [destruct (pget _ _); reflexivity|].
+  destruct (beqb (m_mtype m) x03); reflexivity.
+Qed.
+
+Theorem step_count_mono cfg st ev st' :
+  step cfg st ev = Some st' -> forall s, e_count (ep_of st s) <= e_count (ep_of st' s).
+Proof.
+  intros Hstep t.
+  assert (K : forall (st0 : state) s0 e', (forall s, e_count (ep_of st s) <= e_count (ep_of st0 s)) ->
+              e_count (ep_of st s0) <= e_count e' ->
+              e_count (ep_of st t) <= e_count (ep_of (with_ep st0 s0 e') t)).
+  { intros st0 s0 e' H0 He. destruct (side_cases s0 t) as [->| ->].
+    - rewrite ep_with_ep_same. exact He.
+    - rewrite ep_with_ep_other. apply H0. }
+  assert (R : forall s, e_count (ep_of st s) <= e_count (ep_of st s)) by (intros; lia).
+  assert (Q : forall s0 q s, e_count (ep_of st s) <= e_count (ep_of (with_queue st s0 q) s))
+    by (intros; rewrite ep_with_queue; lia).
+  destruct ev as [s method args meta codec ids|s method args meta codec ids|s i chunks|s j|s k|s];
+    cbn [step] in Hstep.
+  - destruct (pack_item cfg ids _); inversion Hstep; subst st'; apply K; auto; cbn; lia.
+  - destruct (pack_item cfg ids _); inversion Hstep; subst st'; apply K; auto; cbn; lia.
+  - destruct (cf_lock cfg && e_lock (ep_of st s)); [discriminate|].
+    destruct (take_nth i (e_outbox (ep_of st s))) as [[x rest]|]; [|discriminate].
+    destruct (_ && _); inversion Hstep; subst st'; apply K; auto; cbn; lia.
+  - destruct (take_nth j (e_writers (ep_of st s))) as [[[[x wr] [|c rest]] others]|]; try discriminate.
+    destruct rest; inversion Hstep; subst st'; apply K; auto; cbn; lia.
+  - destruct (take_nth k (e_unlocking (ep_of st s))) as [[oc rest]|]; inversion Hstep; subst st'.
+    apply K; auto; cbn; lia.
+  - destruct (e_broken (ep_of st s)); [discriminate|].
+    destruct (raw_unpack _ _ _) as [[[[m ids] sz] rest]| |].
+    + destruct (cf_callmu cfg && beqb (m_mtype m) x02 && caller_inside (ep_of st s) (m_seq m));
+        [discriminate|].
+      inversion Hstep; subst st'. apply K; [apply Q|]. rewrite dispatch_count. lia.
+    + destruct (frame_complete _ _); inversion Hstep; subst st'; apply K; auto; cbn; lia.
+    + destruct (frame_complete _ _); inversion Hstep; subst st'; apply K; auto; cbn; lia.
+Qed.
